@@ -299,6 +299,8 @@ def ref_values(t, depth=0, rich=True):
     if isinstance(t, dt.Alias):
         return ref_values(t.data_type, depth, rich)
     if isinstance(t, dt.Nullable):
+        if depth >= 5:
+            return [None]            # recursive types (next Node?) stay finite
         return [None] + ref_values(t.data_type, depth, rich)
     small = depth >= 2 or not rich
     if isinstance(t, dt.Void):
@@ -345,9 +347,11 @@ def ref_values(t, depth=0, rich=True):
         v = ts_values(t.format)
         return v[:1] if small else v
     if isinstance(t, dt.List):
-        inner = ref_values(t.data_type, depth + 1, rich)
         lo = t.min_items or 0
         hi = t.max_items
+        if depth >= 5 and lo == 0:
+            return [[]]
+        inner = ref_values(t.data_type, depth + 1, rich)
         out = []
         if lo == 0:
             out.append([])
@@ -360,6 +364,8 @@ def ref_values(t, depth=0, rich=True):
             out.append([inner[i % len(inner)] for i in range(hi)])
         return out
     if isinstance(t, dt.Map):
+        if depth >= 5:
+            return [{}]
         inner = ref_values(t.value_data_type, depth + 1, rich)
         out = [{}, {'k': inner[0]}]
         if not small:
@@ -385,6 +391,8 @@ def struct_values(s, depth, rich=True):
         nullable = strip(f.data_type)[1]
         if nullable:
             vals = [v for v in vals if v is not None]          # None == unset for a nullable field
+            if not vals:
+                continue                                       # depth cut-off of a recursive type: leave it unset
         per.append((f, vals))
     req_only = tuple((f.name, vals[0]) for f, vals in per if not is_optional(f))
     out = [SV(ns, s.name, req_only)]
